@@ -62,7 +62,7 @@ C10Exp(e) ==
                   utf == Utf8OK(s, 1)
                   res == ParseStr(T, s, r)
               IN [f \in Forms(e) |->
-                    IF ~rok THEN OPanic
+                    IF ~rok THEN Free              \* C10 speaks about radices 2..=36 only ("panic only for an out-of-range radix")
                     ELSE CASE f = "parse_bytes" -> IF utf /\ res.k = "ok" THEN OSome(T, Dec(T, res.v)) ELSE ONone
                            [] f = "from_str_radix" -> res
                            \* FromStr / str::parse: within the same bounds; when the drivers run on behalf of the
@@ -72,13 +72,13 @@ C10Exp(e) ==
                            [] f \in {"from_str", "str_parse"} ->
                                 IF e.chk = "C17" /\ "from_str_radix" \in Forms(e) /\ Match(e.fo["from_str_radix"], res)
                                 THEN e.fo["from_str_radix"] ELSE res
-                           [] f = "parse_str_radix" -> IF res.k = "ok" THEN OVal(T, Dec(T, res.v)) ELSE OPanic]
+                           [] f = "parse_str_radix" -> IF res.k = "ok" THEN OVal(T, Dec(T, res.v)) ELSE Free]   \* (documented to panic; no property says so)
          [] e.op = "from_radix" ->
               LET ds == a[1].v          \* most significant first
                   rbig == AN(a[2])
                   rok == IsSmall(rbig) /\ ToInt(rbig) >= 2 /\ ToInt(rbig) <= 256
                   r == ToInt(rbig)
-              IN IF ~rok THEN AllForms(e, OPanic)
+              IN IF ~rok THEN AllForms(e, Free)
                  ELSE IF ~AllBelow(ds, r) THEN AllForms(e, ONone)
                  ELSE LET m == Horner(ds, r)
                       IN AllForms(e, IF BitLen(m) <= T.w THEN [k |-> "some", v |-> EncPat(T, m)] ELSE ONone)
@@ -98,9 +98,9 @@ C11Exp(e) ==
         okdig == small /\ r >= 2 /\ r <= 256
         be == ToRadix(PatOf(T, x), r)
     IN [f \in Forms(e) |->
-          CASE f = "str" -> IF okstr THEN OBytes(NumeralStr(x, r)) ELSE OPanic
-            [] f = "be"  -> IF okdig THEN OBytes(be) ELSE OPanic
-            [] f = "le"  -> IF okdig THEN OBytes(RevSeq(be)) ELSE OPanic
+          CASE f = "str" -> IF okstr THEN OBytes(NumeralStr(x, r)) ELSE Free      \* C11: "panic only for an out-of-range radix"
+            [] f = "be"  -> IF okdig THEN OBytes(be) ELSE Free
+            [] f = "le"  -> IF okdig THEN OBytes(RevSeq(be)) ELSE Free
             [] f = "str_roundtrip" -> OOk(T, x)
             [] f \in {"be_roundtrip", "le_roundtrip"} -> OSome(T, x)]
 
